@@ -319,7 +319,11 @@ impl<'a> Gen<'a> {
             1 => { s += "fn broken( {\n"; f.push("bad-parse"); }
             2 => { s += "undefined_name_zz + 1\n"; f.push("bad-name"); }
             3 => { let d = self.int(); s += &format!("let zz = 0\n{} / zz\n", d); f.push("div0"); }
-            4 => { s += "let tt = \"a\"\ntt - 1\n"; f.push("bad-type"); }
+            4 => {
+                // half of them without any top-level let/fn: a program with no globals that fails at run time
+                if self.rng.chance(1, 2) { s = "(\"a\" + \"b\") - 1\n".to_string(); f.push("no-globals-runtime-error"); }
+                else { s += "let tt = \"a\"\ntt - 1\n"; }
+                f.push("bad-type"); }
             5 => { s = s.replace("return", "retrun"); f.push("typo"); }
             _ => { let n = s.len(); let cut = self.rng.below(n as u64 + 1) as usize; let mut c = cut; while !s.is_char_boundary(c) { c -= 1; } s.truncate(c); f.push("truncated"); }
         }
